@@ -133,6 +133,10 @@ def gen_samples(seed: int, n: int):
     return c17.gen_samples(seed, n, render=latex_str, symbols=sample_symbols(), max_len=160)
 
 
+def gen_source_forms(seed: int, n: int):
+    return c17.gen_source_forms(seed, n, render=latex_str, symbols=sample_symbols(), max_len=160)
+
+
 def run(ctx):
     c17.limit_memory()
     ctx.level = "translation_validation"
@@ -174,6 +178,11 @@ def run(ctx):
     for idx, e in gen_samples(sub_seed, n_samples):
         c = make_case(f"sample#{idx}", "sample", e, None, sample_index=idx, srepr=sympy.srepr(e))
         c["vkey"] = f"C18:expr:{c['s']}" if c["s"] is not None else f"C18:expr-raises:{sympy.srepr(e)[:300]}"
+        cases.append(c)
+    n_src = ctx.pick(400, 4000)
+    for idx, e in gen_source_forms(sub_seed, n_src):
+        c = make_case(f"source#{idx}", "source", e, None, sample_index=idx, srepr=sympy.srepr(e))
+        c["vkey"] = f"C18:source:{c['s']}" if c["s"] is not None else f"C18:source-raises:{sympy.srepr(e)[:300]}"
         cases.append(c)
     ctx.log(f"{len(cases)} cases built")
 
@@ -315,6 +324,9 @@ def validate(ctx, cases):
         rc.measure_axioms(ctx, rc.PREAMBLE_TEX, first_ok)
     cat = [c for c in cases if c["origin"] == "catalogue"]
     smp = [c for c in cases if c["origin"] == "sample"]
+    src = [c for c in cases if c["origin"] == "source"]
+    ctx.coverage["source_form_cases"] = len(src)
+    ctx.coverage["source_form_semantic"] = sum(1 for c in src if c["status"] == "lemma")
     ctx.evaluated(len(cases), len({c["s"] for c in cases if ("\\frac" in c["s"] or "\\left" in c["s"] or "^" in c["s"] or "-" in c["s"])}))
     ctx.coverage["programs"] = len(cases)
     ctx.coverage["disagreements_checked"] = len(all_lemmas) - ok
@@ -331,20 +343,43 @@ def validate(ctx, cases):
     ctx.coverage["rule"] = ("catalogue: every documented member whose docstring carries :laws:latex::, source form, exhaustive; "
         "samples: seeded auto-evaluated trees (ExprGen) over 14 symbols with plain, subscripted, Greek, \\text and \\mathcal "
         "LaTeX names; every rendering gets a well-formedness obligation, every rendering inside the reader's grammar a "
-        "semantic obligation; distinct_nontrivial = distinct renderings containing \\frac, \\left, ^ or a sign")
-    for c in (cat[:2] + smp[:4]):
+        "semantic obligation; source forms: seeded law-style expressions built with evaluation disabled (SourceFormGen); "
+        "distinct_nontrivial = distinct renderings containing \\frac, \\left, ^ or a sign")
+    for c in (cat[:2] + smp[:3] + src[:2]):
         ctx.sample({"item": c["key"], "rendering": c["s"], "original": str(c["expr"]),
             "lemma": (c["lemma"].statement[:600] if c.get("lemma") else c["wf"].statement[:300]), "status": c["status"]})
+
+
+def dev_validate(ctx, cases):
+    sem = [c for c in cases if c["sides"] is not None]
+    rc.parse_pass(ctx, "c18", PARSE_FN, sem, preamble=rc.PREAMBLE_TEX)
+    rc.classify_and_build("C18", sem, PARSE_FN)
+    for c in cases:
+        print("==", c["key"], c.get("status"), c.get("bad"), c.get("reason"))
+        print("   s:", c["s"])
+        print("   e:", c["expr"])
+    lem = [c for c in sem if c["status"] == "lemma"]
+    for c in lem:
+        lm = c["lemma"]
+        with open(f"/tmp/dev/{lm.name}.v", "w", encoding="utf-8") as fh:
+            fh.write(f"{rc.PREAMBLE_TEX}\nLemma {lm.name} : {lm.statement}.\nProof.\n{lm.proof}\nQed.\n")
+    res = coqrun.prove_lemmas(ctx, "c18", rc.PREAMBLE_TEX, [c["lemma"] for c in lem], per_file=1)
+    for c in lem:
+        print(c["key"], "->", res[c["lemma"].name][-700:])
 
 
 def replay(ctx, rep):
     item = rep.get("item", "")
     expr = None
-    if rep.get("origin") == "sample" or item.startswith("sample#"):
+    if rep.get("origin") in ("sample", "source") or item.startswith(("sample#", "source#")):
         rng_ctx = random.Random(rep["seed"])
         sub_seed = rng_ctx.getrandbits(48)
-        n = 1000 if rep.get("tier", "quick") == "quick" else 20000
-        for idx, e in gen_samples(sub_seed, n):
+        quick = rep.get("tier", "quick") == "quick"
+        if rep.get("origin") == "source" or item.startswith("source#"):
+            stream = gen_source_forms(sub_seed, 400 if quick else 4000)
+        else:
+            stream = gen_samples(sub_seed, 1000 if quick else 20000)
+        for idx, e in stream:
             if idx == rep.get("sample_index"):
                 expr = e
                 break
